@@ -49,10 +49,13 @@ def w2(tier):
     return {"tests": tests, "monitors": ["C06"], "timeout": 900 if tier == "quick" else 2400}
 
 def shard(ctx):
-    from ..templates import any_template
+    from ..templates import any_template, t_else_moves
 
-    prof = StreamProfile(knobs_fn=knobs, script_len=ctx.params["script_len"], templates=any_template)
-    prof.template_prob = 0.3
+    def templ(rng):
+        return t_else_moves(rng) if rng.random() < 0.3 else any_template(rng)
+
+    prof = StreamProfile(knobs_fn=knobs, script_len=ctx.params["script_len"], templates=templ)
+    prof.template_prob = 0.4
     run_stream(ctx, prof, [ForwardMonitor(ctx)])
 
 
